@@ -1331,7 +1331,9 @@ def _unsupported_work1(job):
             fn = J.compile_expressions if kind == "expr" else J.compile_forms
             fn(objs, options=opts, cache_dir=str(Path(job["outdir"]) / f"uns-{job['case']}"), cffi_extra_compile_args=["-O0"])
             res["outcome"] = "accepted"
-        except Exception as e:  # noqa: BLE001
+        except (KeyboardInterrupt, SystemExit):
+            raise
+        except BaseException as e:  # noqa: BLE001  (UFL's ArityMismatch derives from BaseException)
             res["outcome"] = "raised"
             res["exc"] = f"{type(e).__name__}: {str(e)[:300]}"
         res["cc_calls"] = len(log.read_text().splitlines()) if log.exists() else 0
